@@ -18,6 +18,7 @@ import (
 	"unicode"
 
 	hcl "Havoc/pkg/profile/yaotl"
+	"Havoc/pkg/profile/yaotl/gohcl"
 	"Havoc/pkg/profile/yaotl/hclsyntax"
 	"Havoc/pkg/profile/yaotl/hclwrite"
 	"github.com/zclconf/go-cty/cty"
@@ -67,6 +68,34 @@ var LabelSets = []labelSpec{
 	{"unicode", []string{"é😀"}, false},
 }
 
+// encStruct is what gohcl.EncodeIntoBody is given: a required attribute, an optional one of
+// a plain type, optional ones behind pointers (a pointer that is set is a value that was
+// given, whatever the value is), and one that is not set.
+type encStruct struct {
+	Zz    string  `yaotl:"zz"`
+	Opt   int     `yaotl:"opt,optional"`
+	Flag  *bool   `yaotl:"flag,optional"`
+	Cnt   *int    `yaotl:"cnt,optional"`
+	Note  *string `yaotl:"note,optional"`
+	Unset *string `yaotl:"unset,optional"`
+}
+
+type encField struct {
+	Name string
+	V    cty.Value
+}
+
+// encValue returns the struct of a variant and the attributes it says to set, in order.
+func encValue(id string) (*encStruct, []encField) {
+	f, c, n := false, 0, ""
+	v := &encStruct{Zz: "", Opt: 0, Flag: &f, Cnt: &c, Note: &n}
+	if id == "values" {
+		f, c, n = true, 3, "n"
+		v.Zz, v.Opt = "v", 5
+	}
+	return v, []encField{{"zz", cty.StringVal(v.Zz)}, {"opt", cty.NumberIntVal(int64(v.Opt))}, {"flag", cty.BoolVal(f)}, {"cnt", cty.NumberIntVal(int64(c))}, {"note", cty.StringVal(n)}}
+}
+
 // Op is one edit through the public API.
 type Op struct {
 	Kind   string   `json:"kind"`
@@ -92,6 +121,10 @@ func (o Op) String() string {
 		return fmt.Sprintf("%s.%s(%s, %s)", t, o.Kind, o.Name, o.Raw)
 	case "RemoveAttribute":
 		return fmt.Sprintf("%s.RemoveAttribute(%s)", t, o.Name)
+	case "EncodeIntoBody":
+		return fmt.Sprintf("gohcl.EncodeIntoBody(struct with %s, %s)", o.Raw, t)
+	case "EncodeAsBlock":
+		return fmt.Sprintf("%s.AppendBlock(gohcl.EncodeAsBlock(struct with %s, %s))", t, o.Raw, o.Name)
 	case "AppendNewBlock":
 		return fmt.Sprintf("%s.AppendNewBlock(%s, %s)", t, o.Name, o.Labels)
 	case "RemoveBlock":
@@ -114,6 +147,10 @@ func (o Op) effect(existed bool) string {
 		return "add-attribute"
 	case "RemoveAttribute":
 		return "remove-attribute"
+	case "EncodeIntoBody":
+		return "encode-struct"
+	case "EncodeAsBlock":
+		return "encode-struct-as-block"
 	case "AppendNewBlock":
 		return "add-block"
 	case "RemoveBlock":
@@ -249,6 +286,17 @@ func buildOps(src []byte, thorough bool) []Op {
 		ops = append(ops, Op{Kind: "SetType", Nested: nested, Index: 0, Name: "renamed"})
 		ops = append(ops, Op{Kind: "AppendNewline", Nested: nested})
 		ops = append(ops, Op{Kind: "Clear", Nested: nested})
+		// a struct encoded into the body: every attribute it sets must be there afterwards,
+		// zero values included
+		// (EncodeIntoBody replaces the body's contents; for a nested body that is the known
+		// write-after-Clear defect, so the struct goes into a new block there)
+		for _, id := range []string{"zeros", "values"} {
+			if nested {
+				ops = append(ops, Op{Kind: "EncodeAsBlock", Name: "eb", Raw: id})
+			} else {
+				ops = append(ops, Op{Kind: "EncodeIntoBody", Raw: id})
+			}
+		}
 	}
 	for i := range ops {
 		ops[i].resolve()
@@ -347,6 +395,19 @@ func applyModel(m *Model, o *Op) (existed bool, ok bool) {
 	case "Clear":
 		body.clear()
 		return false, true
+	case "EncodeIntoBody", "EncodeAsBlock":
+		_, fields := encValue(o.Raw)
+		had := len(body.items) > 0
+		if o.Kind == "EncodeAsBlock" {
+			body.appendBlock(o.Name, nil)
+			body, had = body.items[len(body.items)-1].body, false
+		} else {
+			body.clear() // "replaces the contents of the given Body"
+		}
+		for _, f := range fields {
+			body.setAttr(f.Name, mVal{lit: true, litVal: expectLiteral(f.V), litDesc: o.Raw + "." + f.Name})
+		}
+		return had, true
 	}
 	panic(harnessBug{"unknown op kind " + o.Kind})
 }
@@ -378,6 +439,12 @@ func applyReal(f *hclwrite.File, o *Op) {
 		body.AppendNewline()
 	case "Clear":
 		body.Clear()
+	case "EncodeIntoBody":
+		v, _ := encValue(o.Raw)
+		gohcl.EncodeIntoBody(v, body)
+	case "EncodeAsBlock":
+		v, _ := encValue(o.Raw)
+		body.AppendBlock(gohcl.EncodeAsBlock(v, o.Name))
 	}
 }
 
